@@ -45,6 +45,8 @@ def check(ctx):
     ctx.sample({"from": "hostile-catalogue", "names": [e["name"] for e in ev if e["ev"] == "hostile"][:20]})
     # attachment server: hostile sessions through the real connection loop (in-memory conn, exact close points), judged by Trace_Attach
     ac.trace_attach(ctx, 900 if thorough else 150, hostile=True, sig_prefix="attachment ")
+    # ... every 1- and 2-cut segmentation of an upload session (a header field cut anywhere must neither crash nor derail the session)
+    ac.mc_attach_seg(ctx, [("JS", 1)] if not thorough else [("JS", 1), ("HLJ", 0), ("SC", 0)])
     # ... and over real TCP with the default file handler
     work = tempfile.mkdtemp(prefix="verif_c10_attach_")
     out = os.path.join(ctx.scratch, "c10_attach_tcp.ndjson")
